@@ -12,4 +12,5 @@ pub mod pathmap;
 pub mod reader;
 #[cfg(feature = "robotics")]
 pub mod robotics;
+pub mod serq;
 pub mod snippet;
